@@ -79,11 +79,40 @@ def run_model(annotated_ops, timeout=300):
     return p.stdout.decode(errors="replace").splitlines()
 
 
+def xxh3_oracle_lines(ops):
+    """`oracle xxh3 DATA DIGEST` lines for every blob the program writes under xxh3 (the model has
+    no XXH3 of its own).  Returns [] when the program does not use xxh3."""
+    from . import layout as L
+    blobs, writers = [], {}
+    for o in ops:
+        t = o.split(" ")
+        if t[0] == "write" and len(t) > 5 and t[3] == "xxh3":
+            blobs.append(bytes.fromhex(t[5][1:]))
+        elif t[0] == "write_hash" and len(t) > 4 and t[3] == "xxh3":
+            blobs.append(bytes.fromhex(t[4][1:]))
+        elif t[0] == "wopen" and "algo=xxh3" in t:
+            writers[t[3]] = b""
+        elif t[0] in ("wwrite", "wwrite1") and t[1] in writers:
+            writers[t[1]] += bytes.fromhex(t[2][1:])
+        elif t[0] == "link_to" or t[0] == "lopen":
+            pass
+    blobs += list(writers.values())
+    seen, out = set(), []
+    for b in blobs:
+        if b not in seen:
+            seen.add(b)
+            out.append(f"oracle xxh3 x{b.hex()} x{L.xxh3(b).hex()}")
+    return out
+
+
 def run_program(prog, flavour):
-    impl, rc = run_impl(flavour, prog.text())
-    ann = annotate(prog.ops, impl)
+    pre = xxh3_oracle_lines(prog.ops) if any("xxh3" in o for o in prog.ops) else []
+    ops = pre + prog.ops
+    impl, rc = run_impl(flavour, "\n".join(ops) + "\n")
+    ann = annotate(ops, impl)
     model = run_model(ann) if prog.model else None
-    return RunResult(prog, flavour, impl, model, ann)
+    k = len(pre)
+    return RunResult(prog, flavour, impl[k:], model[k:] if model is not None else None, ann[k:])
 
 
 def run_all(progs, flavours, jobs=16):
